@@ -13,7 +13,8 @@ import (
 // C11: Op 0 = QuantileCI(N, Q, c) for every c in Cs with N <= 30 (one line per (N,Q));
 // Op 1 = QuantileCI(N, Q, Cs[0]) with N > 30 plus the NormalDist oracle values (Mu, Sigma, InvCDF(alpha), CDF at the ends of the
 // rounded band and of every band of the widening loop);
-// Op 2 = QuantileCIResult{Quantile:Q, N:RN, LoOrder:Lo, HiOrder:Hi}.SampleCI(Sample{Xs, Sorted, Weights}).
+// Op 2 = QuantileCIResult{Quantile:Q, N:RN, LoOrder:Lo, HiOrder:Hi}.SampleCI(Sample{Xs, Sorted, Weights}); with Prev: after an
+// earlier SampleCI call on the same backing array holding Prev (in-place overwrite history).
 type c11Case struct {
 	Op       int   `json:"op"`
 	N        int   `json:"n"`
@@ -25,6 +26,9 @@ type c11Case struct {
 	Weighted bool  `json:"w,omitempty"`
 	Sorted   bool  `json:"sorted,omitempty"`
 	Xs       []F64 `json:"xs,omitempty"`
+	// op 2: contents the SAME backing array held during an earlier SampleCI call (same length); the array is then
+	// overwritten in place with Xs and the observed call is made (a result must depend on the current contents only)
+	Prev []F64 `json:"prev,omitempty"`
 }
 
 func c11Obs(l *Line, r stats.QuantileCIResult) {
@@ -141,6 +145,25 @@ func c11Run(raw []byte) (*Line, error) {
 		}
 		if c.Sorted && !sort.Float64sAreSorted(xs) {
 			return nil, fmt.Errorf("Sorted flag on unsorted data")
+		}
+		if len(c.Prev) != 0 && len(c.Prev) != len(xs) {
+			return nil, fmt.Errorf("prev has another length")
+		}
+		if len(c.Prev) != 0 {
+			// history: an earlier call on the same backing array with other contents (unsorted, unweighted), then the
+			// array is overwritten in place
+			prev := fromF64s(c.Prev)
+			for _, x := range prev {
+				if math.IsNaN(x) || math.IsInf(x, 0) {
+					return nil, fmt.Errorf("bad prev")
+				}
+			}
+			buf := make([]float64, len(xs))
+			copy(buf, prev)
+			pres := stats.QuantileCIResult{Quantile: q, N: len(buf), LoOrder: c.Lo, HiOrder: c.Hi}
+			catch(func() { pres.SampleCI(stats.Sample{Xs: buf}) })
+			copy(buf, xs)
+			xs = buf
 		}
 		before := append([]float64(nil), xs...)
 		s := stats.Sample{Xs: xs, Sorted: c.Sorted}
@@ -417,6 +440,13 @@ func c11Gen(tier string, rng *rand.Rand, emit func(interface{})) {
 			xs[0], xs[n-1] = xs[n-1], xs[0]
 		}
 		cs := c11Case{Op: 2, N: n, Q: F64(qs[rng.Intn(len(qs))]), Xs: toF64s(xs)}
+		if i%2 == 1 {
+			prev := make([]float64, n)
+			for j := range prev {
+				prev[j] = genValue(rng, kind)
+			}
+			cs.Prev = toF64s(prev)
+		}
 		switch i % 3 {
 		case 0:
 			cs.Lo, cs.Hi = 0, n+1
@@ -469,6 +499,17 @@ func c11Gen(tier string, rng *rand.Rand, emit func(interface{})) {
 			}
 		}
 		cs.Xs = toF64s(xs)
+		if rng.Intn(2) == 0 { // in-place overwrite history: the array held other values during an earlier call
+			prev := make([]float64, len(xs))
+			for j := range prev {
+				prev[j] = genValue(rng, kind)
+			}
+			if rng.Intn(3) == 0 { // ... or the same values in another order
+				copy(prev, xs)
+				rng.Shuffle(len(prev), func(a, b int) { prev[a], prev[b] = prev[b], prev[a] })
+			}
+			cs.Prev = toF64s(prev)
+		}
 		emit(cs)
 	}
 }
